@@ -8,6 +8,8 @@ CONFIG = {
         "V.C02.sign_verify", "V.C02.verify_reserialised", "V.C02.sign_verify_after", "V.C02.sign_preserves",
         "V.C02.verify_sound_key", "V.C02.verify_sound_tamper", "V.C02.verify_needs_signature", "V.C02.verify_iff",
         "V.C02.listKeyIDs_complete", "V.C02.sign_never_panics", "V.C02.toy_ideal", "V.Sign.b64Decode_encode",
+        "V.C02.verifyText_iff", "V.C02.signText_ok", "V.C02.ambiguous_never_verifies", "V.C02.ambiguous_never_signed",
+        "V.C02.dup_or_illformed_never_verifies", "V.C02.gate_uniqueKeys", "V.C02.verify_text_sound_tamper",
     ],
     "rule": "sign: generated objects (C01's value generator; pre-existing signature maps with canonical / URL-safe / CRLF / "
             "non-canonical / invalid base64, null and ill-typed maps; `unsigned`; case-variant keys Signatures / unſigned ...) "
@@ -16,7 +18,15 @@ CONFIG = {
             "on the output; outputs are signed again by other entities. verify: the harness signs the spec payload with its own "
             "ed25519, injects the signature and applies ONE mutation (re-serialisation, member change/insert/delete/nested edit, "
             "other name / key ID / key, wrong key or signature length, corrupted or transplanted signature, extra signers, "
-            "unsigned edit, case-variant keys, -0 vs 0, 1 vs 1.0, base64 respelling, broken signature maps); the model decides "
+            "unsigned edit, case-variant keys, -0 vs 0, 1 vs 1.0, base64 respelling, broken signature maps; and TEXT-LEVEL "
+            "tamperings that keep the old signature: a lone surrogate escape written into a string or member name of the signed "
+            "members, a duplicate member placed first or last in the top-level or a nested object (also with the name respelled "
+            "\\u00XX), invalid UTF-8 (U+FFFD in a name rewritten to a byte Go reads as U+FFFD), and the same inside "
+            "`signatures` / `unsigned` or as a second `signatures` / `unsigned` member); sign is also run on such texts. The "
+            "specification DEMANDS refusal (sign: err, accept: rej) whenever the signed members are not one definite value for "
+            "every reader (Spec.definitePayload) and is silent (`unspecified`) when the ambiguity is confined to `signatures` / "
+            "`unsigned`; the model (signJSONText / verifyJSONText = the gate checkStrictJSON + the value-level model) refuses "
+            "both. The model decides "
             "with symbolic crypto from the facts (signature bytes, public key, payload) on the op line. Non-trivial = the text "
             "parses as an object; distinct by op line",
     "nontrivial": lambda op, impl: not impl.startswith("err:json") and impl != "err",
@@ -31,8 +41,12 @@ CONFIG = {
         "cryptography is symbolic: SigCorrect (correctness, sizes) for completeness theorems, IdealSig (message binding, key binding) "
         "for soundness theorems; hypotheses of the theorems, instantiated by V.C02.toy_ideal; in the correspondence a signature verifies "
         "iff it is one of the genuine ed25519 signatures listed on the op line (for that key and payload)",
-        "objects with duplicate keys, invalid UTF-8 or lone surrogates are outside the domain (model answers skip; sjson deletes the "
-        "first duplicate while Go maps keep the last, so SignJSON's own output does not verify there)",
+        "texts with duplicate member names (any depth), lone surrogate escapes or invalid UTF-8 are INSIDE the claim since the K7 "
+        "repair: SignJSON / VerifyJSON refuse them (V.C02.ambiguous_never_signed / ambiguous_never_verifies; gate = C01's domain, so "
+        "the UniqueKeys / numsOk hypotheses of the value-level theorems hold for every message that is read: gate_uniqueKeys, "
+        "parse_numsOk). Decision on the excluded members: the Go gate covers the WHOLE message (a second `signatures` / `unsigned` "
+        "member and duplicates / ill-formed strings inside them are refused too); the specification demands that only for the signed "
+        "members. ListKeyIDs has no gate: `sign.list` on a text the gate refuses is skipped (its callers go on to VerifyJSON)",
         "top-level case variants of the two keys (Signatures, unſigned, ...) are ordinary signed members (exact-name reading since "
         "/repo 0fb2afd); they are generated on purpose and the specification stream demands exactly that",
     ],
